@@ -21,15 +21,22 @@ def rule_a(ctx):
     fb = [l for l in L.locks() if "HalfLock<core::option::Option<signal_hook_registry::Prev>>" in l and l.endswith("write_mutex")]
     if len(data) != 1 or len(fb) != 1:
         raise AnchorLost("data / fallback writer mutexes: %s %s" % (data, fb))
+    # judged in the normal form of every public registry function (the acquisition may sit in a private helper called with the data lock held)
+    from . import reg
     n = 0
-    for a in L.acqs:
-        if a.lock != fb[0] or a.kind != "wrapper":
+    for fn, i in reg.public_fns(F):
+        nm = reg.RN(F, i)
+        tk = L._tokens(nm, [])
+        acq = [(bb, t) for bb, t in nm.calls() if L.wrappers.get(t.get("f")) == fb[0]]
+        if not acq:
             continue
-        n += 1
-        reg = L.regions.get((a.inst.id, data[0]), set())
-        ctx.check(a.bb in reg, "C18.a", "fallback-under-data@%s" % keyname(a.inst.name),
-                  "the fallback writer lock is acquired only while the data writer lock is held", a.inst.term(a.bb)["sp"],
-                  "fallback lock taken outside the data lock: two registrations could interleave their fallback stores")
+        locs = {l for l, lid in tk.items() if lid == data[0]}
+        region = L._region(nm, locs) if locs else set()
+        for bb, t in acq:
+            n += 1
+            ctx.check(bb in region, "C18.a", "fallback-under-data@%s" % keyname(i.name),
+                      "the fallback writer lock is acquired only while the data writer lock is held", t["sp"],
+                      "fallback lock taken outside the data lock: two registrations could interleave their fallback stores")
     if n == 0:
         raise AnchorLost("no acquisition of the fallback writer lock found")
     ctx.check(fb[0] not in edges or data[0] not in edges.get(fb[0], ()), "C18.a", "no-inversion",
